@@ -30,7 +30,7 @@ ASSUMPTIONS = [
 SHARDS = {"quick": 8, "thorough": 16}
 TIMEOUT = {"quick": 600, "thorough": 3600}
 MIN_CASES = {"quick": 50_000, "thorough": 250_000}
-REQUIRED_COUNTERS = ["outbound_decoded", "inbound_deliveries_checked", "corruptions_rejected", "real_transport_teardowns", "real_transport_idle_teardowns", "inbound_reads_over_64k"]
+REQUIRED_COUNTERS = ["outbound_decoded", "inbound_deliveries_checked", "corruptions_rejected", "real_transport_teardowns", "real_transport_idle_teardowns", "inbound_reads_over_64k", "outbound_pipelined_decoded"]
 
 OUT_LENGTHS = [0, 1, 2, 1023, 1024, 1025, 2047, 2048, 2049, 3071, 3072, 3073, 4096, 5000, 10240, 10241]
 OK_RESPONSE = b"HTTP/1.1 204 No Content\r\n\r\n"
@@ -123,6 +123,77 @@ async def check_outbound(ctx, rng, lengths) -> None:
             return
         if resp.code != 204:
             ctx.violation("response-code-differs", f"got {resp.code}", replay)
+
+
+async def check_outbound_pipelined(ctx, rng, lengths) -> None:
+    """Several requests handed to one session before ANY of them is answered (the protocol keeps a FIFO of outstanding
+    requests for exactly that): the accessory must decrypt all their frames in the order they were written."""
+    from aiohomekit.controller.ip.connection import SecureHomeKitProtocol
+
+    a2c, c2a = keys_for(rng)
+    proto = SecureHomeKitProtocol(StubConnection(), a2c, c2a)
+    tr = StubTransport()
+    proto.connection_made(tr)
+    dec = refsession.Decoder(c2a)
+    enc = refsession.Encoder(a2c)
+    payloads = [rng.randbytes(ln) for ln in lengths]
+    ctx.case("outp", tuple(lengths), payloads[0][:8], sample={"part": "outbound, pipelined", "payload_lens": list(lengths)}, kind="outp")
+    replay = {"part": "outp", "lengths": list(lengths)}
+    tasks = []
+    for pl in payloads:
+        tasks.append(asyncio.ensure_future(proto.send_bytes(pl)))
+        for _ in range(2):
+            await asyncio.sleep(0)
+    raw = b"".join(b"".join(c[1]) for c in tr.calls if c[0] in ("write", "writelines"))
+    try:
+        frames = dec.feed(raw)
+    except refsession.DecodeError as ex:
+        ctx.violation("outbound-frame-rejected-by-reference", f"{len(payloads)} requests outstanding at once (lengths {list(lengths)}): {ex}", replay)
+        for t in tasks:
+            t.cancel()
+        return
+    if b"".join(frames) != b"".join(payloads) or dec.buf:
+        ctx.violation("outbound-plaintext-differs", f"{len(payloads)} requests outstanding at once: accessory decrypts {sum(map(len, frames))} bytes != {sum(lengths)} written", replay)
+        for t in tasks:
+            t.cancel()
+        return
+    ctx.count("outbound_pipelined_decoded")
+    for _ in payloads:
+        for fr in enc.frames(OK_RESPONSE):
+            proto.data_received(fr)
+    for t in tasks:
+        try:
+            resp = await asyncio.wait_for(t, 5)
+            if resp.code != 204:
+                ctx.violation("response-code-differs", f"got {resp.code}", replay)
+        except Exception as ex:  # noqa: BLE001
+            ctx.violation(f"request-after-framing-fails-{type(ex).__name__}", f"pipelined lengths {list(lengths)}: {ex!r}", replay)
+            return
+    # and the session goes on: one more request after the burst
+    await check_outbound_tail(ctx, proto, tr, dec, enc, rng, replay)
+
+
+async def check_outbound_tail(ctx, proto, tr, dec, enc, rng, replay) -> None:
+    payload = rng.randbytes(rng.choice([1, 1024, 1500]))
+    before = len(tr.calls)
+    task = asyncio.ensure_future(proto.send_bytes(payload))
+    for _ in range(3):
+        await asyncio.sleep(0)
+    raw = b"".join(b"".join(c[1]) for c in tr.calls[before:] if c[0] in ("write", "writelines"))
+    try:
+        frames = dec.feed(raw)
+    except refsession.DecodeError as ex:
+        ctx.violation("outbound-frame-rejected-by-reference", f"request after a pipelined burst: {ex}", replay)
+        task.cancel()
+        return
+    if b"".join(frames) != payload:
+        ctx.violation("outbound-plaintext-differs", "request after a pipelined burst decrypts to something else", replay)
+    for fr in enc.frames(OK_RESPONSE):
+        proto.data_received(fr)
+    try:
+        await asyncio.wait_for(task, 5)
+    except Exception:  # noqa: BLE001
+        pass
 
 
 class Spy:
@@ -407,6 +478,10 @@ async def _main(ctx, only=None) -> None:
     await check_outbound(ctx, rng, mine)
     for ln in mine[:6]:
         await check_outbound(ctx, rng, [ln])
+    for k in range(ctx.pick(6, 200)):
+        if ctx.mine(k):
+            r2 = ctx.grng("C05.outp", k)
+            await check_outbound_pipelined(ctx, r2, [r2.choice([1, 100, 1023, 1024, 1025, 2048, 2500, 5000]) for _ in range(r2.choice([2, 2, 3, 4]))])
     await run_inbound_small(ctx)
     await run_corruption(ctx)
     await run_real_transport(ctx)
@@ -424,7 +499,9 @@ def replay(ctx, d) -> None:
 
     async def go():
         part = d["part"]
-        if part == "out":
+        if part == "outp":
+            await check_outbound_pipelined(ctx, ctx.rng("C05.outp.replay"), d["lengths"])
+        elif part == "out":
             await check_outbound(ctx, ctx.rng("C05.out"), d["lengths"])
         elif part in ("in", "inl"):
             await run_inbound_small(ctx)
